@@ -268,7 +268,12 @@ class Runner:
     """One runner process of one build configuration. A crash raises RunnerCrash and the next
     call transparently starts a fresh process."""
 
+    _UIDS = __import__("itertools").count(1)
+
     def __init__(self, cfg, timeout=60.0, env=None, recycle=20000):
+        # identity for "what is selected in this runner process" caches: id(obj) is reused by Python for the Runner of
+        # the next Env in the same process (the 3x confirmation replays), a serial number is not
+        self.uid = next(Runner._UIDS)
         self.cfg = cfg
         self.exe = build.ensure(cfg)
         self.timeout = timeout
@@ -345,6 +350,16 @@ class Runner:
                 return None
             out += chunk
         return out
+
+    def will_restart(self):
+        """True when the next run() starts a fresh runner process (same condition as in run())"""
+        return self.proc is None or self.proc.poll() is not None or self.ncases >= self.recycle
+
+    def epoch(self):
+        """identity of the runner PROCESS the next request will be executed by: (serial of this Runner, number of the
+        process). Selection caches key on it, so that 'selected' is remembered exactly as long as the process lives
+        (keying on the count BEFORE the first spawn made every runner select its parameter set twice)."""
+        return (self.uid, self.starts + (1 if self.will_restart() else 0))
 
     def run(self, prog, timeout=None):
         if self.proc is None or self.proc.poll() is not None or self.ncases >= self.recycle:
